@@ -391,30 +391,61 @@ def x_f64(b, rec):
 
 
 def x_dropguard(b, rec):
-    """mark_one's DropGuard: the normal path (guard created, then forgotten) is a no-op."""
-    m = re.search(r'struct DropGuard<\'a>\s*\{', b)
+    """mark_one's unwind guard: a struct declared inside the function with a `Drop` impl, created before the trace call and forgotten after it
+    (`mem::forget(guard)` or a method of the guard whose body is `mem::forget(self)`).  The normal path (created, then forgotten) is a no-op;
+    the Drop body is kept for the unwind variant.  Names of the type, its fields, the local and the disarm method are free."""
+    m = re.search(r'struct (\w+)<\'a>\s*\{', b)
     if not m:
         return b, None
+    G = m.group(1)
     i = b.index('{', m.end() - 1); j = match_close(b, i)
+    fields = dict((f.strip(), t.strip()) for f, t in re.findall(r'(\w+)\s*:\s*([^,}]+)', b[i + 1:j]))
+    cf = [f for f, t in fields.items() if 'Context' in t]
+    pf = [f for f, t in fields.items() if t.startswith('GcPtr')]
+    if len(fields) != 2 or len(cf) != 1 or len(pf) != 1:
+        raise Unsupported('unwind guard `%s`: expected one `&mut Context` field and one `GcPtr` field' % G)
+    cf, pf = cf[0], pf[0]
     b = b[:m.start()] + b[j + 1:]
-    m = re.search(r'impl<\'a> Drop for DropGuard<\'a>\s*\{', b)
+    m = re.search(r'impl<\'a> Drop for %s<\'a>\s*\{' % G, b)
     if not m:
-        raise Unsupported('DropGuard without Drop impl')
+        raise Unsupported('unwind guard `%s` without Drop impl' % G)
     i = b.index('{', m.end() - 1); j = match_close(b, i)
     impl_body = b[i + 1:j]
     b = b[:m.start()] + b[j + 1:]
     _, dbody, _, _ = find_fn(impl_body, 'drop')
     dbody = dbody.strip()
-    m = re.search(r'let guard = DropGuard \{\s*context: self,\s*gc_ptr,\s*\};', b)
+    # optional inherent impl with disarm-style methods: fn NAME(self) { mem::forget(self); }
+    disarm = []
+    m = re.search(r'impl<\'a> %s<\'a>\s*\{' % G, b)
+    if m:
+        i = b.index('{', m.end() - 1); j = match_close(b, i)
+        inh = b[i + 1:j]
+        for fm in re.finditer(r'fn (\w+)\s*\(\s*self\s*\)\s*\{\s*(?:core::|std::)?mem::forget\(self\);?\s*\}', inh):
+            disarm.append(fm.group(1))
+        rest = re.sub(r'(?:#\[[^\]]*\]\s*)*fn (\w+)\s*\(\s*self\s*\)\s*\{\s*(?:core::|std::)?mem::forget\(self\);?\s*\}', '', inh)
+        if rest.strip():
+            raise Unsupported('unwind guard `%s` has methods other than disarm-style ones' % G)
+        b = b[:m.start()] + b[j + 1:]
+    m = re.search(r'let (\w+) = %s \{([^}]*)\};' % G, b)
     if not m:
-        raise Unsupported('DropGuard construction shape changed')
+        raise Unsupported('unwind guard construction shape changed')
+    var = m.group(1)
+    init = {}
+    for part in [x.strip() for x in m.group(2).split(',') if x.strip()]:
+        if ':' in part:
+            k, v = part.split(':', 1); init[k.strip()] = v.strip()
+        else:
+            init[part] = part
+    if set(init) != {cf, pf} or init[cf] not in ('self', '&mut *self'):
+        raise Unsupported('unwind guard construction shape changed')
     b = b[:m.start()] + '/*@guard-created@*/' + b[m.end():]
-    b = b.replace('guard.context', 'self')
-    if not re.search(r'mem::forget\(guard\);', b):
-        raise Unsupported('DropGuard is not forgotten on the normal path')
-    b = re.sub(r'mem::forget\(guard\);\n?', '/*@guard-forgotten@*/', b)
-    guard_drop = dbody.replace('self.context.', 'self.').replace('self.gc_ptr', 'gc_ptr')
-    rec.rule('X-unwind(DropGuard dissolved; drop body kept for the unwind variant)')
+    b = b.replace('%s.%s' % (var, cf), 'self')
+    pat = r'(?:(?:core::|std::)?mem::forget\(%s\)|%s\.(?:%s)\(\));\n?' % (var, var, '|'.join(disarm) if disarm else '__none__')
+    if len(re.findall(pat, b)) != 1:
+        raise Unsupported('the unwind guard is not forgotten exactly once on the normal path')
+    b = re.sub(pat, '/*@guard-forgotten@*/', b)
+    guard_drop = dbody.replace('self.%s.' % cf, 'self.').replace('self.%s' % pf, init[pf])
+    rec.rule('X-unwind(unwind guard `%s` dissolved; drop body kept for the unwind variant)' % G)
     return b, guard_drop
 
 
@@ -610,27 +641,66 @@ def extract_context(path, rec):
     rec.begin(key, 'src/context.rs::impl Drop for Context::drop')
     _, i, j = find_block(src, r'\nimpl Drop for Context\s*\{', 'impl Drop for Context')
     _, dbody, _, _ = find_fn(src[i + 1:j], 'drop')
-    # the local guard type
-    m = re.search(r'struct DropAll<\'a>\(&\'a Metrics, Option<GcPtr>\);', dbody)
+    # the local guard type: a struct with a `&Metrics` field and an `Option<GcPtr>` field (tuple or named fields, any names)
+    m = re.search(r"struct (\w+)<'a>\s*(\(([^)]*)\)\s*;|\{([^}]*)\})", dbody)
     if not m:
-        raise Unsupported('DropAll guard type changed shape')
-    _, gi, gj = find_block(dbody, r'impl<\'a> Drop for DropAll<\'a>\s*\{', 'impl Drop for DropAll')
+        raise Unsupported('Drop for Context: no local guard struct found')
+    G = m.group(1)
+    if m.group(3) is not None:
+        tys = [t.strip() for t in m.group(3).split(',') if t.strip()]
+        names = [str(k) for k in range(len(tys))]
+    else:
+        parts = [x.strip() for x in m.group(4).split(',') if x.strip()]
+        names = [x.split(':')[0].strip() for x in parts]; tys = [x.split(':', 1)[1].strip() for x in parts]
+    mf = [n for n, t in zip(names, tys) if 'Metrics' in t]; hf = [n for n, t in zip(names, tys) if t.replace(' ', '') == 'Option<GcPtr>']
+    if len(names) != 2 or len(mf) != 1 or len(hf) != 1:
+        raise Unsupported('Drop for Context: guard struct `%s` changed shape' % G)
+    MF, HF = mf[0], hf[0]
+    _, gi, gj = find_block(dbody, r"impl<'a> Drop for %s<'a>\s*\{" % G, 'impl Drop for the guard struct')
     _, gbody, _, _ = find_fn(dbody[gi + 1:gj], 'drop')
     outer = dbody[:m.start()] + dbody[gj + 1:]
     outer = dedent(outer.replace(m.group(0), ''), 8)
-    m2 = re.search(r'DropAll\(&cx\.metrics, cx\.all\.get\(\)\);', outer)
+    # construction in the outer function: `G(&cx.metrics, cx.all.get());`  or  `let v = G { m: &cx.metrics, h: cx.all.get() }; drop(v);`
+    m2 = re.search(r'%s\(&cx\.metrics, cx\.all\.get\(\)\);' % G, outer)
     if not m2:
-        raise Unsupported('Drop for Context: DropAll construction changed shape')
+        m2 = re.search(r'let (\w+) = %s \{\s*%s: &cx\.metrics,\s*%s: cx\.all\.get\(\),?\s*\};\s*drop\(\1\);' % (G, MF, HF), outer)
+    if not m2:
+        raise Unsupported('Drop for Context: guard construction changed shape')
     outer = outer.replace(m2.group(0), 'let mut cursor = self.all;\n/*@DROPALL-LOOP@*/')
-    # inner: if let Some(gc_ptr) = self.1.take() { let mut drop_resume = DropAll(self.0, Some(gc_ptr)); while let ... { } }
-    m3 = re.search(r'if let Some\(gc_ptr\) = self\.1\.take\(\)\s*\{\s*let mut drop_resume = DropAll\(self\.0, Some\(gc_ptr\)\);', gbody)
-    if not m3:
-        raise Unsupported('DropAll::drop wrapper changed shape')
-    k0 = gbody.index('{', m3.start()); k1 = match_close(gbody, k0)
-    loop_txt = gbody[m3.end():k1]
-    if gbody[k1 + 1:].strip():
-        raise Unsupported('DropAll::drop has statements after the resume wrapper')
-    loop_txt = loop_txt.replace('drop_resume.1', 'cursor').replace('self.0.', 'self.metrics.')
+    # inner: take the head (if-let or let-else), optional alias of the metrics reference, the resume guard, the loop over its head
+    g = gbody
+    m3 = re.search(r'if let Some\((\w+)\) = self\.%s\.take\(\)\s*\{' % HF, g)
+    if m3:
+        k0 = g.index('{', m3.start()); k1 = match_close(g, k0)
+        if g[k1 + 1:].strip():
+            raise Unsupported('guard drop has statements after the resume wrapper')
+        first, inner = m3.group(1), g[k0 + 1:k1]
+    else:
+        m3 = re.search(r'let Some\((\w+)\) = self\.%s\.take\(\) else \{\s*return;?\s*\};' % HF, g)
+        if not m3 or g[:m3.start()].strip():
+            raise Unsupported('guard drop wrapper changed shape')
+        first, inner = m3.group(1), g[m3.end():]
+    alias = None
+    ma = re.search(r'let (\w+) = self\.%s;' % MF, inner)
+    if ma:
+        alias = ma.group(1); inner = inner.replace(ma.group(0), '', 1)
+    mref = alias if alias else 'self.%s' % MF
+    mr = re.search(r'let mut (\w+) = %s\(%s, Some\(%s\)\);' % (G, re.escape(mref), first), inner)
+    if not mr:
+        mr = re.search(r'let mut (\w+) = %s \{\s*(?:%s: %s|%s),\s*%s: Some\(%s\),?\s*\};' % (G, MF, re.escape(mref), MF if alias == MF else '(?!)', HF, first), inner)
+    if not mr or inner[:mr.start()].strip():
+        raise Unsupported('guard drop: resume guard construction changed shape')
+    R = mr.group(1)
+    loop_txt = inner[mr.end():]
+    # `loop { let Some(mut p) = R.h.take() else { break; }; BODY }`  ==  `while let Some(mut p) = R.h.take() { BODY }`
+    ml = re.search(r'loop\s*\{\s*let Some\((mut \w+|\w+)\) = %s\.%s\.take\(\) else \{\s*break;?\s*\};' % (R, HF), loop_txt)
+    if ml:
+        k0 = loop_txt.index('{', ml.start()); k1 = match_close(loop_txt, k0)
+        loop_txt = loop_txt[:ml.start()] + 'while let Some(%s) = %s.%s.take() {' % (ml.group(1), R, HF) + loop_txt[ml.end():k1] + '}' + loop_txt[k1 + 1:]
+    if not re.search(r'while let Some\((?:mut )?\w+\) = %s\.%s\.take\(\)' % (R, HF), loop_txt):
+        raise Unsupported('guard drop: loop over the resume guard changed shape')
+    loop_txt = loop_txt.replace('%s.%s' % (R, HF), 'cursor')
+    loop_txt = re.sub(r'\b%s\.' % re.escape(mref), 'self.metrics.', loop_txt) if not alias else re.sub(r'\b%s\.' % alias, 'self.metrics.', loop_txt)
     loop_txt = dedent(loop_txt, 16)
     rec.rule('X-dropall')
     rec.drop('DropAll guard struct (resume after a panicking destructor): not modelled, destructor panics are outside C04/C11')
@@ -677,6 +747,11 @@ def extract_metrics(path, rec):
             rec.cur['absent'] = True
             continue
         body = dedent(body, 4)
+        # X-alias: `let inner = &*self.0;` / `let c = &self.0.total_gcs;` - a shared reference to the metrics cell(s) under a local name
+        for am in list(re.finditer(r'let (\w+) = &\*?(self\.0(?:\.\w+)?);[ \t]*\n?', body)):
+            body = body.replace(am.group(0), '', 1)
+            body = re.sub(r'\b%s\.' % am.group(1), am.group(2) + '.', body)
+            rec.rule('X-alias')
         if fn == 'finish_cycle':
             # X-f64: statements of the float part are replaced by ONE shim call; the counter resets are kept
             stmts = [s.strip() for s in re.split(r';\s*\n', body) if s.strip()]
@@ -736,6 +811,14 @@ def extract_slots(path, rec):
         rec.begin(key, 'src/dynamic_roots.rs::impl Slots::' + fn)
         sig, body, _, _ = find_fn(impl, fn, 'Slots::' + fn)
         body = dedent(body, 4)
+        # X-cell (plain field): mem::replace(&mut PATH, V) -> { let old = PATH; PATH = V; old }   (PATH a Copy field)
+        while True:
+            rm = re.search(r'(?:core::|std::)?mem::replace\(&mut ((?:\w+\.)*\w+),\s*', body)
+            if not rm:
+                break
+            i0 = body.index('(', rm.start()); j0 = match_close(body, i0, '(', ')')
+            body = body[:rm.start()] + '({ let mr_old = %s; %s = %s; mr_old })' % (rm.group(1), rm.group(1), body[rm.end():j0].strip()) + body[j0 + 1:]
+            rec.rule('X-cell(mem::replace on a plain field)')
         sig = ' '.join(sig.split()).replace("Gc<'gc, ()>", 'GcRef')
         rec.rule("X-gen('gc dropped; Gc<'gc, ()> -> opaque GcRef)")
         s = sig
